@@ -84,3 +84,10 @@ MUTANTS.append({"id": "unchecked-index-helper-misused", "kind": "break",
                 "edits": _C03[[m["id"] for m in _C03].index("benign-component-access-extracted-into-helper")]["edits"] + [
                     ("src/dewey.rs", "    let llen = lhs.version.len();\n    let rlen = rhs.version.len();\n", "    let llen = lhs.version.len();\n    let rlen = rhs.version.len();\n    if component(lhs, rlen) == i64::MIN {\n        return false;\n    }\n")],
                 "expect": ["PANIC@dewey::component"]})
+MUTANTS += [
+ # the stream buffer split at the end of the last complete record, computed by a helper over windows(2)
+ {"id": "window-end-split-benign", "kind": "benign", "edits": [{"patch": "/verif/benign/h4-summary-3/patch.diff"}]},
+ {"id": "window-end-split-one-past", "kind": "break", "edits": [{"patch": "/verif/benign/h4-summary-3/patch.diff"}, ("src/summary.rs", "self.buf = self.buf.split_off(last);", "self.buf = self.buf.split_off(last + 1);")], "expect": ["PANIC@", "split_off"]},
+ {"id": "window-end-helper-adds-three", "kind": "break", "edits": [{"patch": "/verif/benign/h4-summary-3/patch.diff"}, ("src/summary.rs", "        .map(|pos| pos + 2)", "        .map(|pos| pos + 3)")], "expect": ["PANIC@"]},
+ {"id": "window-end-over-chunks", "kind": "break", "edits": [{"patch": "/verif/benign/h4-summary-3/patch.diff"}, ("src/summary.rs", "    buf.windows(2)\n        .rposition", "    buf.chunks(2)\n        .rposition")], "expect": ["PANIC@"]},
+]
